@@ -419,7 +419,13 @@ impl Run {
                         c.range = Some((0, 100));
                     }
                     if s.enums % 8 == 7 && c.category.is_none() {
-                        c.enums = vec!["Y".to_string(), "N".to_string(), "Maybe".to_string()];
+                        // (every second set has members with leading / trailing
+                        // blanks and one with a blank inside: they are part of the value)
+                        c.enums = if s.enums % 16 == 15 {
+                            vec![" auto".to_string(), "on".to_string(), "off ".to_string(), "a b".to_string()]
+                        } else {
+                            vec!["Y".to_string(), "N".to_string(), "Maybe".to_string()]
+                        };
                         c.ty = Ty::Str([0usize, 8, 64][(s.width % 3) as usize]);
                     }
                 }
@@ -535,11 +541,16 @@ impl Run {
     fn summary_string(&self, seed: &ValSeed) -> String {
         let page = cpref::page_by_id(self.model.summary.codepage).expect("known page");
         let s = self.plain_string(seed.str_sel, page);
-        if s.is_empty() {
-            "s".to_string()
-        } else {
-            s
+        let mut s = if s.is_empty() { "s".to_string() } else { s };
+        // summary strings are length-prefixed: U+0000 is an ordinary
+        // character in them, also at the end
+        match seed.class % 32 {
+            11 => s.push('\0'),
+            12 => s.insert(0, '\0'),
+            13 => s.push_str("\0\0"),
+            _ => {}
         }
+        s
     }
 
     // -- applying one op --------------------------------------------------- //
@@ -719,7 +730,15 @@ impl Run {
                     q = q.set(table.cols[*ci].name.as_str(), v.to_msi());
                 }
                 if let Some(e) = &cond_e {
-                    q = q.with(build(e));
+                    // a conjunction is handed over either as one expression or
+                    // as two restrictions (each with() adds one)
+                    match e {
+                        E::Bin(Bin::And, a, b) if cond.col2 % 2 == 0 => {
+                            q = q.with(build(a)).with(build(b));
+                            self.classes.push("chained-with");
+                        }
+                        _ => q = q.with(build(e)),
+                    }
                 }
                 let res = self.pkg().update_rows(q);
                 if collision {
@@ -754,7 +773,15 @@ impl Run {
                 self.trace.push(format!("delete({tname} where {})", cond_e.as_ref().map(|e| e.show()).unwrap_or("-".into())));
                 let mut q = Delete::from(tname.as_str());
                 if let Some(e) = &cond_e {
-                    q = q.with(build(e));
+                    // a conjunction is handed over either as one expression or
+                    // as two restrictions (each with() adds one)
+                    match e {
+                        E::Bin(Bin::And, a, b) if cond.col2 % 2 == 0 => {
+                            q = q.with(build(a)).with(build(b));
+                            self.classes.push("chained-with");
+                        }
+                        _ => q = q.with(build(e)),
+                    }
                 }
                 self.pkg().delete_rows(q).map_err(|e| io_fail(p, "Delete", &self.trace_text(), e))?;
                 let keys: Vec<Vec<V>> = table.rows.keys().cloned().collect();
@@ -788,7 +815,15 @@ impl Run {
                     q = q.columns(&names);
                 }
                 if let Some(e) = &cond_e {
-                    q = q.with(build(e));
+                    // a conjunction is handed over either as one expression or
+                    // as two restrictions (each with() adds one)
+                    match e {
+                        E::Bin(Bin::And, a, b) if cond.col2 % 2 == 0 => {
+                            q = q.with(build(a)).with(build(b));
+                            self.classes.push("chained-with");
+                        }
+                        _ => q = q.with(build(e)),
+                    }
                 }
                 let trace = self.trace_text();
                 let rows = self.pkg().select_rows(q).map_err(|e| io_fail(p, "Select", &trace, e))?;
